@@ -271,7 +271,11 @@ impl<'a> ExprAST<'a> {
                     "false".into()
                 }
             }
-            String(value) => "\"".to_string() + &value + "\"",
+            String(value) => {
+                // no escapes exist, so a text containing `"` can only be written in `'`
+                let quote = if value.contains('"') { "'" } else { "\"" };
+                quote.to_string() + &value + quote
+            }
         }
     }
 
